@@ -65,5 +65,9 @@ func (r reader) ReadHeader() (h FormatHeader, err error) {
 		return
 	}
 	h.Type, err = r.ReadUint64()
+	if err == io.EOF {
+		// The stream ended in the middle of the header, that's not a clean end
+		err = io.ErrUnexpectedEOF
+	}
 	return
 }
